@@ -185,6 +185,11 @@ func segmentF(mask int, vs int) *MediaSegment {
 			p.ByteRangeStart = nil
 		}
 		s.Parts = []*MediaPart{p, {Duration: time.Second, URI: "q.mp4"}}
+		if r.l != nil && r.s != nil && vs%2 == 1 {
+			// a second part of the same resource whose range has no offset (it continues the first one): the offset stays
+			// implicit through a round trip; then a third one with an explicit offset again
+			s.Parts = []*MediaPart{p, {Duration: time.Second, URI: p.URI, ByteRangeLength: r.l}, {Duration: time.Second, URI: p.URI, ByteRangeLength: r.l, ByteRangeStart: r.s}}
+		}
 	}
 	return s
 }
